@@ -18,6 +18,20 @@ CLAIMED = {
             "DESIGN.md 3/C14", "bounded model checking of the real code (Kani 0.68 / CBMC 6.11 + CaDiCaL), differential vs. bit-vector model, generated operation sequences"),
     "C16": ("Bounded model checking of deblock() for every enumerated image size with fewer than two rows or fewer than ten columns (and small sizes with edges), symbolic content and strength: no panic / overflow / out-of-bounds, output equals the Annex J model; the strength table equals Table J.2 entry by entry.",
             "DESIGN.md 3/C16", "bounded model checking of the real code (Kani 0.68 / CBMC 6.11 + CaDiCaL)"),
+    "C01": ("Bounded model checking in three layers whose conjunction is the claim: bit reader (the C14 sequences double as no-panic for arbitrary bytes); parser (real VLC walks on every real table terminate within the longest code for every bit pattern; macroblock/block/unrestricted-vector parsing satisfies the output contracts, with the VLC walk abstracted to 'some End entry, at least one bit'); decoder core (one decode call from an arbitrary state satisfying the representation invariant, for enumerated structural scenarios with symbolic payload, pixel callees as contract stubs whose callee side is decided on the real functions). Kani's panic / overflow / bounds / division checks and unwinding assertions are the oracle.",
+            "DESIGN.md 3/C01", "bounded model checking of the real code (Kani 0.68 / CBMC 6.11 + CaDiCaL), assume-guarantee over reader / parser / decoder-core layers"),
+    "C02": ("Stage-wise bounded model checking of intra reconstruction: dequantisation / zig-zag / INTRADC (all C11 obligations), exact reconstruction of empty and DC-only blocks incl. rounding, both clips, addition and cropping, 1-D transform wiring on one-hot inputs, basis constants. Dense blocks through the f32 transform are outside (C10 n/a); the composition is an argument over stage interfaces.",
+            "DESIGN.md 3/C02-C03", "bounded model checking of the real code (Kani 0.68 / CBMC 6.11 + CaDiCaL), stage-wise differential oracles"),
+    "C03": ("Stage-wise bounded model checking of predicted-picture reconstruction: half-sample bilinear interpolation with upward rounding and edge clamp for every vector / content / sample at enumerated plane sizes and block origins, wiring of gather() (vector per block, chroma vector rounding, intra not predicted, missing reference rejected), and all C12 vector obligations.",
+            "DESIGN.md 3/C02-C03", "bounded model checking of the real code (Kani 0.68 / CBMC 6.11 + CaDiCaL), stage-wise differential oracles"),
+    "C04": ("Bounded model checking of one decode step from an arbitrary pre-state (inductive step over the representation invariant, so histories of any length), symbolic 8-bit temporal references incl. equal ones: most-recent picture, reference bookkeeping for I / P / disposable pictures, prediction source, clean-up; plus the macroblock-syntax selection for disposable pictures on the real parser. One recorded known finding (KF-C04-1).",
+            "DESIGN.md 3/C04", "bounded model checking of the real code (Kani 0.68 / CBMC 6.11 + CaDiCaL), one inductive step from an arbitrary invariant-satisfying state"),
+    "C05": ("Bounded model checking of one decode step from an arbitrary pre-state for failure scenarios at every depth (header, macroblock header with every GOB-probe answer, block data, prediction, zero sizes): on Err the observable decoder state equals the snapshot and the reader position is unchanged.",
+            "DESIGN.md 3/C05", "bounded model checking of the real code (Kani 0.68 / CBMC 6.11 + CaDiCaL), state-snapshot comparison on every failing path"),
+    "C15": ("Bounded model checking: a successful decode call leaves the reader at the end of the picture's own macroblock data (no record beyond the last macroblock is consumed), and the header parser finds the next picture behind 0..7 zero padding bits at every phase in both modes.",
+            "DESIGN.md 3/C15", "bounded model checking of the real code (Kani 0.68 / CBMC 6.11 + CaDiCaL)"),
+    "C17": ("Sequential non-interference and determinism only: 2-safety harness on the decode step (two decoders, same history, a third interleaved). The thread-schedule quantifier of the property is NOT covered (no engine).",
+            "DESIGN.md 3/C17", "bounded model checking of the real code (Kani 0.68 / CBMC 6.11 + CaDiCaL), 2-safety (self-composition) harness"),
     "C06": ("Bounded model checking of the real header parser over a 256-bit fully symbolic stream against a reference parser transcribed from H.263 5.1 / the Sorenson layout: accept/reject decision, every public header field and the number of consumed bits, for every start phase, header kind and option combination enumerated.",
             "DESIGN.md 3/C06", "bounded model checking of the real code (Kani 0.68 / CBMC 6.11 + CaDiCaL) over a model bit reader, differential vs. reference header parser"),
     "C07": ("Bounded model checking of the compiled 4-pixel kernel against the 16.16 fixed-point BT.601 formula for every input byte combination (all 2^24 colours in every lane), the formula itself shown within 1 of the exact rational BT.601 conversion, alpha 255, and monotonicity of each channel. No bound on values.",
@@ -28,7 +42,9 @@ CLAIMED = {
             "DESIGN.md 3/C09", "bounded model checking of the real code (Kani 0.68 / CBMC 6.11 + CaDiCaL), differential vs. Annex J oracle"),
 }
 
-NOT_APPLICABLE = {}
+NOT_APPLICABLE = {
+    "C10": "Annex A accuracy is a statistic of one fixed computation over 60,000 dense pseudo-random blocks - nothing for a solver to quantify over, and running the blocks is enumeration (another technique); the for-all strengthening needs 1024 symbolic f32 multiply-adds per block: one symbolic coefficient through the real 2-D path did not return from CBMC in 20 min (DESIGN.md 3/C10). Decidable conjuncts (zero block, DC-only blocks, one-hot wiring, basis constants) run under C02.",
+}
 
 def main():
     props = [json.loads(l)["id"] for l in open(os.path.join(VERIF, "properties.jsonl"))]
